@@ -19,7 +19,7 @@ def gen_cases(tier, seed, ctx):
     scen = []
     prs = U.pairs(rnd, tier, big=(tier == 'thorough'))
     for tag, A, B in prs:
-        if tier == 'quick' and tag.split('/')[0] not in ('edit', 'absent', 'duplicates', 'same', 'adjacent-dup'): continue
+        if tier == 'quick' and tag.split('/')[0] not in ('edit', 'absent', 'duplicates', 'same', 'adjacent-dup', 'separators'): continue
         tg = U.targets(rnd, A, B)
         for tname in (['absent', 'old-A', 'partial'] if tier == 'quick' else list(tg)):
             if tname not in tg: continue
